@@ -144,7 +144,9 @@ def _run_chunk(exe, subcmd, lines, stall, burn=False, retry=True):
     i = 0
     while i < len(lines):
         p = subprocess.Popen([exe, subcmd], stdin=subprocess.PIPE, stdout=subprocess.PIPE,
-                             stderr=subprocess.DEVNULL, env=dict(GOENV, VERIF_MEMO_BURN="1") if burn else GOENV)
+                             stderr=subprocess.DEVNULL,
+                             env=dict(GOENV, VERIF_SCRATCH=os.path.join(os.path.dirname(exe), "scratch"),
+                                      **({"VERIF_MEMO_BURN": "1"} if burn else {})))
         payload = ("\n".join(lines[i:]) + "\n").encode()
         # feed stdin from a thread so that a big batch cannot deadlock on the pipe
         import threading
@@ -295,6 +297,9 @@ def run_model(pid, imports, harness, pairs, shard=None, procs=16, timeout=1500):
     for i, (c, o) in enumerate(pairs):
         if '"Timeout"' in o or '"Crash"' in o:
             solo.append([i])       # the model may exceed the budget too: evaluated alone
+            continue
+        if "big_bytes" in c:
+            shards.append([i])     # short to write, long to evaluate: a shard of its own (started first)
             continue
         cur.append(i)
         size += len(c) + len(o)
